@@ -42,7 +42,7 @@ NEG_INT_REGEX = re.compile(
 
 # Pattern to recognize a symbol value
 SYMBOL_REGEX = re.compile(
-    r"^(?P<value>[a-zA-Z\d@]+)$"
+    r"^(?P<value>[a-zA-Z\d@_]+)$"
 )
 
 # Patten to recognize an expression
